@@ -85,6 +85,9 @@ func vhRequest(sys *System, ctx *Context, op int, loc string) vhResp {
 	case 7: // a client writes the creation marker property itself, with an odd value
 		_, err := sys.AddFact(ctx, loc, "", `{"!createdAt":5}`)
 		return vhResp{nil, err != nil}
+	case 14: // the marker property spelled with a JSON escape (\u0041 is "A")
+		_, err := sys.AddFact(ctx, loc, "", "{\"!created\\u0041t\":5}")
+		return vhResp{nil, err != nil}
 	case 12: // a client writes under the id of the creation marker's property fact
 		_, err := sys.AddFact(ctx, loc, "!.createdAt", `{"x":2}`)
 		return vhResp{nil, err != nil}
